@@ -56,7 +56,14 @@ def auditedMapIters : List AuditedMapIter := [
   -- values/sort.go: SortedMapKeys is the one place where keys are read for iteration; it sorts them
   { pkg := "values", fn := "values.SortedMapKeys", kind := "MapKeys", n := 1, why := .sortedBeforeUse },
   -- values/compare.go: equalMaps is true iff every entry of a has an Equal entry in b (sizes are equal)
-  { pkg := "values", fn := "values.equalMaps", kind := "MapRange", n := 1, why := .allEntriesTest }
+  { pkg := "values", fn := "values.equalMaps", kind := "MapRange", n := 1, why := .allEntriesTest },
+  -- values/drop.go (fixes/nested-drops-resolved): resolveDrops copies the entries of a map that is about to be printed,
+  -- each value with its drops resolved (a pure function of the value), into a fresh map[K]any; whether any entry held
+  -- a drop is a disjunction over all entries. fmt prints the result with its keys sorted.
+  { pkg := "values", fn := "values.resolveDrops", kind := "MapRange", n := 1, why := .copiesIntoMap },
+  -- filters/standard_filters.go (same repair): eqItems on two maps is true iff every entry of a has an equal entry
+  -- in b (key types and sizes are equal), as equalMaps; eqItems is pure
+  { pkg := "filters", fn := "filters.eqItems", kind := "MapRange", n := 1, why := .allEntriesTest }
 ]
 
 /-- a site is audited when the table lists its function and kind with at least as many sites, and,
